@@ -50,6 +50,13 @@ CHECKS = {
         "DESIGN.md section 5 C03",
         NOTE_MODEL,
     ),
+    "C04": core(
+        "c04",
+        "states = operand pairs (FULL^2 at 8 bits; reduced boundary sets plus range roots elsewhere) x shift amounts of each of the 12 primitive rhs types (MIN, -1, 0, 1, BITS-1, BITS, BITS+1, 2^32.., MAX of the type) x exponents; every operator, unsuffixed method, strict_/checked_/wrapping_/overflowing_/saturating_ form executed under catch_unwind in a binary built with debug assertions + overflow checks and in one built without; observation = panicked | returned(value); non-trivial = transitions expected to panic",
+        "Panic / no-panic outcome (and the wrapped value returned instead of a panic in release builds) of every listed operator and method equals the model's panic predicate on every enumerated state, in both build modes.",
+        "DESIGN.md section 5 C04",
+        NOTE_MODEL,
+    ),
     "C05": core(
         "c05",
         "states = (value, amount): FULL values up to 16 bits (24 in the thorough tier), boundary-digit sets beyond; amounts = every s <= BITS+2 (digit boundaries +-1 for wide types) plus 2*BITS-1.., 3*BITS, 255, 256, 2^16, 2^31, 2^32-2, 2^32-1; all shift forms, unbounded shifts, rotations and rotl/rotr round trips compared with bit-vector semantics; non-trivial = None / flag / strict panic (amount >= BITS)",
